@@ -301,7 +301,11 @@ def judgeCompute (prop : String) : P Verdict := do
         p := finite && o.t.dim == n && o.t.wf && o.t.entries.all (·.val ≥ 0) && sumOK
         if !p then why := s!"not a distribution: finite={finite} wf={o.t.wf} sumOK={sumOK}"
       else if prop == "C01" then
-        if sp.endedByCriteria && o.iters == sp.stopIter && r.a > 0 then
+        -- the implementation claims convergence whenever it stopped before the iteration limit
+        let implConverged := match r.maxI with
+          | some mx => mx == 0 || (o.iters : Int) < mx
+          | none => true
+        if implConverged && r.a > 0 then
           match exactFixedPoint r with
           | none => p := true; why := "fixed point solver failed (skipped)"
           | some ts =>
